@@ -113,6 +113,30 @@ func joinAlts(maxTables int) []alt {
 				}
 			}
 		}
+		// the third table as the preserved side of a RIGHT JOIN over a cross / inner / left join
+		// of t and u (left-deep `t cross join u right join v on …`): a WHERE predicate over t and
+		// u then sits above an outer join whose null-supplying side is itself a join
+		rights := []struct {
+			name string
+			k1   JoinKind
+			on1  Expr
+		}{{"cross", JoinCross, nil}, {"inner", JoinInner, ons[0].e}, {"left", JoinLeft, ons[0].e}}
+		for _, rj := range rights {
+			for _, on3 := range []struct {
+				name string
+				e    Expr
+			}{{"v.a=t.a", Cmp{"=", c("v", "a"), c("t", "a")}}, {"v.b=u.b", Cmp{"=", c("v", "b"), c("u", "b")}}} {
+				rj, on3 := rj, on3
+				if rj.name != "cross" && on3.name == "v.b=u.b" {
+					continue
+				}
+				out = append(out, alt{fmt.Sprintf("join3:%s-right(%s)", rj.name, on3.name), func(q *Query) bool {
+					q.From = append(q.From, TableRef{Name: "u", Kind: rj.k1, On: rj.on1})
+					q.From = append(q.From, TableRef{Name: "v", Kind: JoinRight, On: on3.e})
+					return true
+				}})
+			}
+		}
 	}
 	return out
 }
